@@ -50,6 +50,7 @@ import (
 	"sigs.k8s.io/controller-runtime/pkg/client/apiutil"
 	kevent "sigs.k8s.io/controller-runtime/pkg/event"
 	"sigs.k8s.io/controller-runtime/pkg/reconcile"
+	"sigs.k8s.io/yaml"
 
 	xpv1 "github.com/crossplane/crossplane-runtime/apis/common/v1"
 	"github.com/crossplane/crossplane-runtime/pkg/event"
@@ -68,15 +69,26 @@ import (
 
 type c12Content struct {
 	Labels map[string]string `json:"labels"`
-	Annos  int               `json:"annos"` // 0 = no annotations
-	Spec   int               `json:"spec"`
+	// Annos > 0: the annotation example.org/note=v<Annos> (scenarios of earlier rounds);
+	// c12Prepare folds it into Anno
+	Annos int               `json:"annos"`
+	Anno  map[string]string `json:"anno"` // metadata.annotations
+	Spec  int               `json:"spec"` // index into Specs
 }
 
-type c12Tab struct { // oracle table: what the real code computes for (comp, content)
-	Comp string `json:"comp"`
-	CI   int    `json:"ci"`
-	Hash string `json:"hash"` // value of the composition-hash label
-	Name string `json:"name"` // name of the revision
+// c12Tab: what the real code computes for (comp, content). Hash and Name are used by the
+// monitors only. The model is handed (Input -> Full): the sha256 digest as a table keyed by
+// the hash INPUT, which the model renders itself from the content (labels, annotations, spec);
+// label (first 63 digits) and revision name (<comp>-<first 7 digits>) are computed by the model.
+type c12Tab struct {
+	Comp  string `json:"comp"`
+	CI    int    `json:"ci"`
+	Hash  string `json:"hash"`  // value of the composition-hash label
+	Name  string `json:"name"`  // name of the revision
+	Full  string `json:"full"`  // Composition.Hash()
+	Input string `json:"input"` // the bytes it hashes (rebuilt, verified against Full)
+
+	inputOK bool // sha256(Input) == Full
 }
 
 type c12Fault struct {
@@ -141,9 +153,13 @@ type c12Scn struct {
 	Variant  string        `json:"variant"`
 	Comps    []c12CompInit `json:"comps"`
 	Contents []c12Content  `json:"contents"`
+	Specs    []c12SpecDef  `json:"specs"`
 	XRs      []c12XRInit   `json:"xrs"`
 	Tab      []c12Tab      `json:"tab"`
 	Events   []c12Ev       `json:"events"`
+
+	specKeyCache map[int]string
+	prepared     bool // c12Prepare ran on this value (copies made for sweeps share its result)
 }
 
 // ---- observation --------------------------------------------------------------
@@ -155,7 +171,7 @@ type c12ORev struct {
 	Num    int64             `json:"num"`
 	Ctrl   string            `json:"ctrl"` // "none" or "uid-N"
 	Labels map[string]string `json:"labels"`
-	Spec   int               `json:"spec"` // index of the spec among the scenario's specs, -1 = none of them
+	Spec   c12SpecDef        `json:"spec"` // the modelled fields of spec, decoded from the stored revision
 }
 
 type c12OStep struct {
@@ -166,7 +182,9 @@ type c12OStep struct {
 }
 
 type c12Obs struct {
-	Steps []c12OStep `json:"steps"`
+	// per content: the bytes Composition.Hash() hashes (verified against the real Hash())
+	Inputs []string   `json:"inputs"`
+	Steps  []c12OStep `json:"steps"`
 }
 
 // ---- real objects -------------------------------------------------------------
@@ -179,28 +197,29 @@ var (
 
 const c12ForeignUID = 999
 
-func c12Spec(i int) v1.CompositionSpec {
-	mode := v1.CompositionModePipeline
-	return v1.CompositionSpec{
-		CompositeTypeRef: v1.TypeReference{APIVersion: "example.org/v1", Kind: "XThing"},
-		Mode:             &mode,
-		Pipeline: []v1.PipelineStep{{
-			Step:        "compose",
-			FunctionRef: v1.FunctionReference{Name: fmt.Sprintf("function-%d", i)},
-		}},
+func (s *c12Scn) spec(i int) v1.CompositionSpec {
+	if i < 0 || i >= len(s.Specs) {
+		return c12SpecOf(c12PipelineSpec(0))
 	}
+	return c12SpecOf(s.Specs[i])
 }
 
-func c12Comp(name string, uid int, c c12Content) *v1.Composition {
-	comp := &v1.Composition{ObjectMeta: metav1.ObjectMeta{Name: name, UID: types.UID(fmt.Sprintf("uid-%d", uid))}, Spec: c12Spec(c.Spec)}
+func (s *c12Scn) comp(name string, uid int, c c12Content) *v1.Composition {
+	comp := &v1.Composition{ObjectMeta: metav1.ObjectMeta{Name: name, UID: types.UID(fmt.Sprintf("uid-%d", uid))}, Spec: s.spec(c.Spec)}
 	if len(c.Labels) > 0 {
 		comp.Labels = map[string]string{}
 		for k, v := range c.Labels {
 			comp.Labels[k] = v
 		}
 	}
-	if c.Annos > 0 {
-		comp.Annotations = map[string]string{"example.org/note": fmt.Sprintf("v%d", c.Annos)}
+	if len(c.Anno) > 0 || c.Annos > 0 {
+		comp.Annotations = map[string]string{}
+		for k, v := range c.Anno {
+			comp.Annotations[k] = v
+		}
+		if c.Annos > 0 {
+			comp.Annotations["example.org/note"] = fmt.Sprintf("v%d", c.Annos)
+		}
 	}
 	return comp
 }
@@ -217,8 +236,20 @@ func c12SpecJSON(spec map[string]any) string {
 	return string(b)
 }
 
-func c12SpecKey(i int) string {
-	rs := composition.NewCompositionRevisionSpec(c12Spec(i), 0)
+func (s *c12Scn) specKey(i int) string {
+	if k, ok := s.specKeyCache[i]; ok {
+		return k
+	}
+	if s.specKeyCache == nil {
+		s.specKeyCache = map[int]string{}
+	}
+	k := s.specKeyRaw(i)
+	s.specKeyCache[i] = k
+	return k
+}
+
+func (s *c12Scn) specKeyRaw(i int) string {
+	rs := composition.NewCompositionRevisionSpec(s.spec(i), 0)
 	m, err := kruntime.DefaultUnstructuredConverter.ToUnstructured(&rs)
 	if err != nil {
 		panic(err)
@@ -245,7 +276,32 @@ func c12Variant() string {
 }
 
 func c12Prepare(s *c12Scn) {
+	if s.prepared {
+		return
+	}
+	s.prepared = true
 	s.Variant = c12Variant()
+	if len(s.Specs) == 0 {
+		s.Specs = c12DefaultSpecs()
+	}
+	for i := range s.Specs {
+		s.Specs[i] = c12NormSpec(s.Specs[i])
+		y, _ := yaml.Marshal(c12SpecOf(s.Specs[i]))
+		s.Specs[i].Yaml = string(y)
+	}
+	for i := range s.Contents {
+		c := &s.Contents[i]
+		if c.Labels == nil {
+			c.Labels = map[string]string{}
+		}
+		if c.Anno == nil {
+			c.Anno = map[string]string{}
+		}
+		if c.Annos > 0 {
+			c.Anno["example.org/note"] = fmt.Sprintf("v%d", c.Annos)
+			c.Annos = 0
+		}
+	}
 	names := map[string]bool{}
 	for _, c := range s.Comps {
 		names[c.Name] = true
@@ -256,10 +312,21 @@ func c12Prepare(s *c12Scn) {
 	}
 	sort.Strings(ns)
 	s.Tab = nil
+	type hin struct {
+		in, full string
+		ok       bool
+	}
+	ins := make([]hin, len(s.Contents)) // the hash does not depend on the Composition's name
+	for ci, c := range s.Contents {
+		comp := s.comp("any", 1, c)
+		ins[ci].in, ins[ci].ok = c12HashInput(comp)
+		ins[ci].full = comp.Hash()
+	}
 	for _, n := range ns {
 		for ci, c := range s.Contents {
-			rev := composition.NewCompositionRevision(c12Comp(n, 1, c), 1)
-			s.Tab = append(s.Tab, c12Tab{Comp: n, CI: ci, Hash: rev.GetLabels()[v1.LabelCompositionHash], Name: rev.GetName()})
+			comp := s.comp(n, 1, c)
+			rev := composition.NewCompositionRevision(comp, 1)
+			s.Tab = append(s.Tab, c12Tab{Comp: n, CI: ci, Hash: rev.GetLabels()[v1.LabelCompositionHash], Name: rev.GetName(), Full: ins[ci].full, Input: ins[ci].in, inputOK: ins[ci].ok})
 		}
 	}
 }
@@ -743,7 +810,18 @@ func (r *c12Runner) checkCaptured(where string) {
 			n++
 			spec, _ := u.Object["spec"].(map[string]any)
 			c := r.s.Contents[ci]
-			if idx, ok := r.specKeys[c12SpecJSON(spec)]; !ok || idx != c.Spec || !c12LabelsEq(c12UserLabels(u), c.Labels) {
+			// the labels copied at creation are those of the content the revision was created
+			// for: this content, or (observation recorded in props/C12.json: Composition.Hash
+			// concatenates yaml(labels) and yaml(annotations) without separator) another
+			// content of the scenario with the same hash input
+			labelsOK := false
+			for cj, t2 := range r.s.Tab {
+				_ = cj
+				if t2.Comp == comp && t2.Hash == t.Hash && c12LabelsEq(c12UserLabels(u), r.s.Contents[t2.CI].Labels) {
+					labelsOK = true
+				}
+			}
+			if idx, ok := r.specKeys[c12SpecJSON(spec)]; !ok || r.specKeys[r.s.specKey(c.Spec)] != idx || !labelsOK {
 				r.mon("C12:spec-mismatch", fmt.Sprintf("%s: revision %s does not carry the content (%s, #%d) it was created for", where, u.GetName(), comp, ci))
 			}
 		}
@@ -763,12 +841,8 @@ func (r *c12Runner) state(res string, enq []string) c12OStep {
 	}
 	for _, u := range r.st.OfKind(c12RevGK) {
 		spec, _ := u.Object["spec"].(map[string]any)
-		idx, ok := r.specKeys[c12SpecJSON(spec)]
-		if !ok {
-			idx = -1
-		}
 		o.Revs = append(o.Revs, c12ORev{Name: u.GetName(), Comp: u.GetLabels()[v1.LabelCompositionName], Hash: u.GetLabels()[v1.LabelCompositionHash],
-			Num: c12Num(u), Ctrl: c12Ctrl(u), Labels: c12UserLabels(u), Spec: idx})
+			Num: c12Num(u), Ctrl: c12Ctrl(u), Labels: c12UserLabels(u), Spec: c12SpecOfRev(spec)})
 	}
 	for _, x := range r.s.XRs {
 		ref := ""
@@ -812,7 +886,7 @@ func (r *c12Runner) setOwner(name string, uid int) {
 }
 
 func (r *c12Runner) putComp(name string, uid int, ci int, deleting bool) {
-	comp := c12Comp(name, uid, r.s.Contents[ci])
+	comp := r.s.comp(name, uid, r.s.Contents[ci])
 	comp.Generation = r.compGen[name]
 	if deleting {
 		now := metav1.Unix(1700000000, 0)
@@ -856,6 +930,27 @@ func (r *c12Runner) applyEnv(e c12Ev) {
 	case "deleting":
 		if ci, ok := r.compCI[e.Comp]; ok {
 			r.putComp(e.Comp, r.compUID[e.Comp], ci, true)
+		}
+	case "legacy":
+		// a revision written by a version of the controller that did not know the
+		// composition-hash label yet (the cluster was upgraded): no hash label, the next free
+		// number, controlled by the Composition. Only between reconciles: it predates them; a
+		// client handing out revision numbers WHILE the controller does is another revision
+		// controller, which the property does not quantify over.
+		name := e.Comp + "-legacy"
+		if _, ok := r.compCI[e.Comp]; ok && r.st.Peek(c12RevGK, "", name) == nil && r.st.Peek(c12CompGK, "", e.Comp) != nil {
+			var mx int64
+			for _, u := range r.st.OfKind(c12RevGK) {
+				if u.GetLabels()[v1.LabelCompositionName] == e.Comp && c12Num(u) > mx {
+					mx = c12Num(u)
+				}
+			}
+			t := true
+			rev := &v1.CompositionRevision{ObjectMeta: metav1.ObjectMeta{Name: name, Labels: map[string]string{v1.LabelCompositionName: e.Comp},
+				OwnerReferences: []metav1.OwnerReference{{APIVersion: v1.SchemeGroupVersion.String(), Kind: v1.CompositionKind, Name: e.Comp,
+					UID: types.UID(fmt.Sprintf("uid-%d", r.compUID[e.Comp])), Controller: &t, BlockOwnerDeletion: &t}}},
+				Spec: composition.NewCompositionRevisionSpec(r.s.spec(0), mx+1)}
+			r.st.Seed(rev)
 		}
 	case "strip":
 		for _, n := range e.Names {
@@ -983,7 +1078,7 @@ func (r *c12Runner) mustSucceed(e *c12Ev) bool {
 // c12ContentIndex: which of the scenario's contents a Composition object carries (-1: none).
 func (r *c12Runner) contentIndex(c *v1.Composition) int {
 	for i, ct := range r.s.Contents {
-		w := c12Comp(c.GetName(), 1, ct)
+		w := r.s.comp(c.GetName(), 1, ct)
 		if reflect.DeepEqual(w.Spec, c.Spec) && c12LabelsEq(w.Labels, c.Labels) && c12LabelsEq(w.Annotations, c.Annotations) {
 			return i
 		}
@@ -1031,6 +1126,47 @@ func (r *c12Runner) checkCurrent(e *c12Ev, where string) {
 			}
 			r.mon(sig, fmt.Sprintf("%s: current revision %s has number %d but %s has %d", where, cur.GetName(), c12Num(cur), u.GetName(), c12Num(u)))
 		}
+	}
+}
+
+// checkCreated: a revision the reconcile just created is the field-by-field copy of the
+// Composition it read (NewCompositionRevision): name <composition>-<first 7 hash digits>,
+// labels = the Composition's labels plus composition-name and composition-hash (first 63
+// digits), spec = the Composition's spec (every field, compared as JSON: the two types share
+// their field names) plus the revision number, controller owner reference = the Composition.
+func (r *c12Runner) checkCreated(c CallInfo) {
+	sc := r.servedComp
+	u := r.st.Peek(c12RevGK, "", c.Name)
+	if sc == nil || u == nil {
+		return
+	}
+	bad := func(what string) {
+		r.mon("C12:revision-not-a-copy", fmt.Sprintf("event %d call %d: created revision %s is not a copy of Composition %s: %s", r.evNo, c.Index, c.Name, sc.GetName(), what))
+	}
+	h := sc.Hash()
+	if len(h) < 63 {
+		return
+	}
+	if u.GetName() != sc.GetName()+"-"+h[:7] {
+		bad("name")
+	}
+	want := map[string]string{v1.LabelCompositionName: sc.GetName(), v1.LabelCompositionHash: h[:63]}
+	for k, v := range sc.GetLabels() {
+		want[k] = v
+	}
+	if !c12LabelsEq(u.GetLabels(), want) {
+		bad(fmt.Sprintf("labels %v, want %v", u.GetLabels(), want))
+	}
+	cs, err := kruntime.DefaultUnstructuredConverter.ToUnstructured(&sc.Spec)
+	spec, _ := u.Object["spec"].(map[string]any)
+	if err == nil && c12SpecJSON(normalizeLoose(cs)) != c12SpecJSON(normalizeLoose(spec)) {
+		bad(fmt.Sprintf("spec %s, Composition spec %s", c12SpecJSON(normalizeLoose(spec)), c12SpecJSON(normalizeLoose(cs))))
+	}
+	if c12Num(u) < 1 {
+		bad("revision number < 1")
+	}
+	if c12Ctrl(u) != string(sc.GetUID()) {
+		bad("controller owner reference " + c12Ctrl(u))
 	}
 }
 
@@ -1203,7 +1339,9 @@ func c12Run(s *c12Scn) (c12Obs, []Mon, []int) {
 		captured: map[string]bool{}, compCI: map[string]int{}, compUID: map[string]int{}, compGen: map[string]int64{}, staleNum: map[string]bool{}}
 	r.cl = &c12Client{Store: r.st, r: r}
 	for _, c := range s.Contents {
-		r.specKeys[c12SpecKey(c.Spec)] = c.Spec
+		if _, dup := r.specKeys[s.specKey(c.Spec)]; !dup {
+			r.specKeys[s.specKey(c.Spec)] = c.Spec
+		}
 	}
 	for _, c := range s.Comps {
 		if c.CI < 0 || c.CI >= len(s.Contents) {
@@ -1232,11 +1370,27 @@ func c12Run(s *c12Scn) (c12Obs, []Mon, []int) {
 		}
 	}
 	r.st.After = func(c CallInfo) {
+		if c.Verb == "create" && c.Applied && c.GK == gkString(c12RevGK) && r.curEv != nil && r.curEv.Op == "rec" {
+			r.checkCreated(c)
+		}
 		if c.IsWrite() {
 			r.checkInstant(fmt.Sprintf("event %d call %d (%s %s)", r.evNo, c.Index, c.Verb, c.Name))
 		}
 	}
-	obs := c12Obs{Steps: []c12OStep{}}
+	obs := c12Obs{Steps: []c12OStep{}, Inputs: []string{}}
+	for ci := range s.Contents {
+		in, ok := "", false
+		for _, t := range s.Tab {
+			if t.CI == ci {
+				in, ok = t.Input, t.inputOK
+				break
+			}
+		}
+		if !ok && len(s.Tab) > 0 {
+			r.mon("C12:hash-input-not-as-modelled", fmt.Sprintf("content #%d: sha256(yaml(labels) ++ yaml(annotations) ++ yaml(spec)) is not what Composition.Hash() returns", ci))
+		}
+		obs.Inputs = append(obs.Inputs, in)
+	}
 	for i := range s.Events {
 		e := &s.Events[i]
 		r.evNo = i
@@ -1301,10 +1455,38 @@ func c12Gen(r *Rng) c12Scn {
 	s := c12Scn{}
 	// 3..5 contents drawn from 3 specs x 5 label sets x 2 annotation sets
 	labelSets := []map[string]string{{}, {"channel": "dev"}, {"channel": "staging"}, {"channel": "dev", "tier": "gold"}, {"channel": "development"}}
+	// annotation sets: one pair (labels, annotations) is a label<->annotation MOVE of another
+	// ({channel:dev,tier:gold}+{zone:z1} vs {channel:dev}+{tier:gold,zone:z1}): Composition.Hash
+	// concatenates yaml(labels) and yaml(annotations) without separator, the two contents
+	// hash alike (observation recorded in props/C12.json)
+	annoSets := []map[string]string{{}, {"example.org/note": "v1"}, {"zone": "z1"}, {"tier": "gold", "zone": "z1"}}
+	cpMap := func(m map[string]string) map[string]string {
+		o := map[string]string{}
+		for k, v := range m {
+			o[k] = v
+		}
+		return o
+	}
+	// 3 specs out of the pool: every modelled field of the spec varies
+	pool := c12SpecPool()
+	for _, i := range r.Perm(len(pool))[:3] {
+		s.Specs = append(s.Specs, pool[i])
+	}
 	nc := r.Range(3, 5)
 	seen := map[string]bool{}
+	collide := r.Chance(1, 8)
+	if collide {
+		sp := r.Intn(3)
+		s.Contents = append(s.Contents,
+			c12Content{Labels: map[string]string{"channel": "dev", "tier": "gold"}, Anno: map[string]string{"zone": "z1"}, Spec: sp},
+			c12Content{Labels: map[string]string{"channel": "dev"}, Anno: map[string]string{"tier": "gold", "zone": "z1"}, Spec: sp})
+		if r.Bool() {
+			s.Contents[0], s.Contents[1] = s.Contents[1], s.Contents[0]
+		}
+		seen[mustJSON(s.Contents[0])], seen[mustJSON(s.Contents[1])] = true, true
+	}
 	for len(s.Contents) < nc {
-		c := c12Content{Labels: Pick(r, labelSets), Annos: r.Intn(2), Spec: r.Intn(3)}
+		c := c12Content{Labels: cpMap(Pick(r, labelSets)), Anno: cpMap(Pick(r, annoSets)), Spec: r.Intn(3)}
 		k := mustJSON(c)
 		if seen[k] {
 			continue
@@ -1435,6 +1617,21 @@ func c12Gen(r *Rng) c12Scn {
 	if r.Chance(2, 3) {
 		s.Events = append(s.Events, genSetXR())
 	}
+	if r.Chance(1, 10) {
+		// an upgraded cluster: one revision predates the composition-hash label
+		if r.Bool() {
+			s.Events = append(s.Events, c12Ev{Op: "rec", Comp: compNames[0]})
+		}
+		s.Events = append(s.Events, c12Ev{Op: "legacy", Comp: compNames[0]})
+	}
+	if collide {
+		// the move edit, each side reconciled, an Automatic XR selecting on the moved label
+		comp := compNames[0]
+		m := map[string]string{"tier": "gold"}
+		s.Events = append(s.Events, c12Ev{Op: "edit", Comp: comp, CI: 0}, c12Ev{Op: "rec", Comp: comp},
+			c12Ev{Op: "setxr", XR: "xr-0", Policy: "Automatic", Sel: &m, Pin: "-"}, c12Ev{Op: "fetch", XR: "xr-0"},
+			c12Ev{Op: "edit", Comp: comp, CI: 1}, genRec(comp), c12Ev{Op: "fetch", XR: "xr-0"})
+	}
 	n := r.Range(5, 16)
 	for i := 0; i < n; i++ {
 		comp := Pick(r, compNames)
@@ -1469,7 +1666,11 @@ func c12Gen(r *Rng) c12Scn {
 		case x < 74:
 			s.Events = append(s.Events, c12Ev{Op: "foreign", Comp: comp, Names: []string{Pick(r, namesOf(comp))}})
 		case x < 75:
-			s.Events = append(s.Events, c12Ev{Op: "deleting", Comp: comp})
+			if r.Bool() {
+				s.Events = append(s.Events, c12Ev{Op: "legacy", Comp: comp})
+			} else {
+				s.Events = append(s.Events, c12Ev{Op: "deleting", Comp: comp})
+			}
 		case x < 84:
 			e := genSetXR()
 			s.Events = append(s.Events, e)
@@ -1484,9 +1685,9 @@ func c12Gen(r *Rng) c12Scn {
 func c12ContentKind(a, b c12Content) string {
 	sameL := c12LabelsEq(a.Labels, b.Labels)
 	switch {
-	case a.Spec == b.Spec && a.Annos == b.Annos && !sameL:
+	case a.Spec == b.Spec && c12LabelsEq(a.Anno, b.Anno) && !sameL:
 		return "labelonly"
-	case a.Spec == b.Spec && a.Annos != b.Annos && sameL:
+	case a.Spec == b.Spec && !c12LabelsEq(a.Anno, b.Anno) && sameL:
 		return "annoonly"
 	}
 	return ""
@@ -1525,6 +1726,20 @@ func c12Class(s *c12Scn, obs c12Obs) string {
 			if old, ok := cur[e.Comp]; ok && e.CI >= 0 && e.CI < len(s.Contents) {
 				if k := c12ContentKind(s.Contents[old], s.Contents[e.CI]); k != "" {
 					has[k] = true
+				}
+				if old != e.CI {
+					var ho, hn string
+					for _, t := range s.Tab {
+						if t.Comp == e.Comp && t.CI == old {
+							ho = t.Full
+						}
+						if t.Comp == e.Comp && t.CI == e.CI {
+							hn = t.Full
+						}
+					}
+					if ho != "" && ho == hn {
+						has["collide"] = true
+					}
 				}
 				cur[e.Comp] = e.CI
 			}
@@ -1579,7 +1794,7 @@ func c12Class(s *c12Scn, obs c12Obs) string {
 	if aba {
 		parts = append(parts, "aba")
 	}
-	for _, k := range []string{"labelonly", "annoonly"} {
+	for _, k := range []string{"collide", "labelonly", "annoonly"} {
 		if has[k] {
 			parts = append(parts, k)
 			break
@@ -1587,6 +1802,9 @@ func c12Class(s *c12Scn, obs c12Obs) string {
 	}
 	if has["strip"] || has["restore"] {
 		parts = append(parts, "stripped")
+	}
+	if has["legacy"] {
+		parts = append(parts, "legacy")
 	}
 	if has["errclass"] {
 		parts = append(parts, "errclass")
@@ -1741,7 +1959,9 @@ func init() {
 		}
 	})
 	RegisterDump("C12", func() string {
-		probe := c12Comp("probe", 1, c12Content{Spec: 0})
+		probe := (&c12Scn{Specs: c12DefaultSpecs()}).comp("probe", 1, c12Content{Spec: 0})
+		nilMap, _ := yaml.Marshal(map[string]string(nil))
+		oneEntry, _ := yaml.Marshal(map[string]string{"k": "v"})
 		rev := composition.NewCompositionRevision(probe, 1)
 		suffix := len(rev.GetName()) - len(probe.GetName()) - 1
 		return fmt.Sprintf("/-- v1.LabelCompositionName -/\ndef labelCompositionName : String := %s\n", leanStr(v1.LabelCompositionName)) +
@@ -1749,6 +1969,8 @@ func init() {
 			fmt.Sprintf("/-- length of Composition.Hash() (probed) -/\ndef compositionHashLen : Nat := %d\n", len(probe.Hash())) +
 			fmt.Sprintf("/-- length of the composition-hash label value (probed on NewCompositionRevision) -/\ndef revisionHashLabelLen : Nat := %d\n", len(rev.GetLabels()[v1.LabelCompositionHash])) +
 			fmt.Sprintf("/-- length of the hash suffix of a revision name (probed) -/\ndef revisionNameSuffixLen : Nat := %d\n", suffix) +
+			fmt.Sprintf("/-- yaml.Marshal of a nil map (a Composition without labels / annotations), probed -/\ndef yamlNilMap : String := %s\n", leanStr(string(nilMap))) +
+			fmt.Sprintf("/-- yaml.Marshal of the map {k: v}, probed: one line `key: value` per entry -/\ndef yamlOneEntry : String := %s\n", leanStr(string(oneEntry))) +
 			"/-- ordered API calls and the LatestRevision computation in composition.Reconciler.Reconcile (go/ast walk of the current tree) -/\n" +
 			"def compositionReconcileSkeleton : List String := " + leanStrList(c12Skeleton()) + "\n"
 	})
